@@ -14,7 +14,9 @@ RULE = ("texts rendered by the layout generator from token lists (1-10 lines; bl
         "indented; trailing blanks; '#' comments; /* */ span tokens closing on the same or a later line with blank lines "
         "inside; text as str and as list of lines) over a fixed rich statement grammar (nullable user symbols as last child, "
         "nested common prefixes, a factorised pair with nullable remainder, recursion) and over random C01 grammars with "
-        "sampled sentences; lexical-error cases inject one foreign character next to a generated token. Non-trivial = a "
+        "sampled sentences; lexical-error cases inject one foreign character next to a generated token; part arbitrary_text: "
+        "any text over the tokenizer alphabet (with / without foreign characters, with comment characters) checked against the "
+        "token-stream invariants only. Non-trivial = a "
         "parsed text of >=2 lines containing an un-indented line start, a blank line or a multi-line span token, or a tree "
         "with an empty node / a node of a factorised group; distinct by (grammar, text).")
 ASSUMPTIONS = [
@@ -192,7 +194,52 @@ def check_token_stream(parser, text, src, as_list):
     return f, info
 
 
+def eval_text(case):
+    """layout-free oracle on arbitrary text over the tokenizer alphabet (no grammar involved)"""
+    import ak.llparser as L
+    text = case["text"]
+    as_list = bool(case.get("as_list"))
+    src = text.split("\n") if as_list else text
+    tokcfg, _ = gk.tok_config(True, True)
+    tk = L._Tokenizer(gk.TOKENIZER, **tokcfg)
+
+    class _P:       # check_token_stream only needs .tokenizer
+        tokenizer = tk
+    lines = text.split("\n")
+    foreign = [i + 1 for i, ln in enumerate(lines) if any(ch in "@$?" for ch in ln)]
+    f = []
+    classes = set(["arbitrary_text"])
+    try:
+        list(tk.tokenize(src, "src"))
+        ok = True
+    except L.LexicalError as e:
+        ok = False
+        if not foreign:
+            if case.get("comments"):
+                classes.add("lexical_error_in_comment_alphabet")     # lone '/' or '*', unclosed span: legitimate
+            else:
+                f.append(("lexical_error_without_foreign_character", f"{text!r}: {e}"))
+        elif not case.get("comments") and e.src_pos.line != foreign[0]:
+            f.append(("lexical_error_names_wrong_line", f"{text!r}: reported line {e.src_pos.line}, first foreign "
+                      f"character on line {foreign[0]}"))
+        classes.add("lexical_error")
+    except Exception as e:   # noqa
+        ok = False
+        f.append(("tokenizer_raises_" + type(e).__name__, f"{text!r}: {e}"))
+    if ok:
+        if foreign and not case.get("comments"):
+            f.append(("foreign_character_accepted", repr(text)))
+        ff, inf = check_token_stream(_P, text, src, as_list)
+        f.extend((b, f"text={text!r} as_list={as_list}: {d}") for b, d in ff)
+        classes |= inf
+        classes.add("lexed")
+    nt = len(lines) >= 2 and any(ln and not ln[0].isspace() for ln in lines[1:])
+    return Outcome(nt, sorted(classes), f[:3], key=[text, as_list])
+
+
 def evaluate(case):
+    if "text" in case:
+        return eval_text(case)
     import ak.llparser as L
     classes = set()
     f = []
@@ -330,6 +377,16 @@ def st_case(draw, max_tokens=14):
     return case
 
 
+def st_text_case():
+    plain = st.text("ab1+,;()[]{}: \t\n\n", max_size=40)
+    with_foreign = st.builds(lambda a, ch, b: a + ch + b, plain, st.sampled_from("@$?"), plain)
+    comments = st.text("ab1+, \n\n#/*", max_size=40)
+    return st.one_of(
+        plain.map(lambda t: {"text": t}), with_foreign.map(lambda t: {"text": t}),
+        comments.map(lambda t: {"text": t, "comments": True})).flatmap(
+            lambda c: st.booleans().map(lambda b: dict(c, as_list=b)))
+
+
 def regression_cases():
     # F2: "ab\ncd" - first token of the second line; F3: EXPR -> TERM (empty factorisation suffix) followed by blanks
     yield {"grammar": "fixed", "smart": True, "inputs": [
@@ -343,6 +400,7 @@ def parts(tier):
     return [
         Part("regressions", evaluate, enumerate=regression_cases, exhaustive=True),
         Part("layouts", evaluate, strategy=st_case, examples=3000 * k),
+        Part("arbitrary_text", evaluate, strategy=st_text_case, examples=6000 * k),
     ]
 
 
